@@ -248,6 +248,9 @@ class Interp:
                 return z3.simplify(U.sort(vs).accessor(1, 0)(v))
             if sortname in opts and opts[sortname] == vs:
                 return U.sort(sortname).constructor(1)(v)
+            ch = getattr(U, 'coerce_hooks', {}).get((vs, sortname))
+            if ch is not None:
+                return ch(self, v)
             raise OutsideSubset('sort mismatch: %s is %s, wanted %s' % (v, v.sort(), sortname))
         if sortname == 'Int' and isinstance(v, int) and not isinstance(v, bool):
             return z3.IntVal(v)
@@ -458,6 +461,16 @@ class Interp:
         return self.binop(node.op, a, b)
 
     def binop(self, op, a, b):
+        try:
+            return self._binop(op, a, b)
+        except OutsideSubset:
+            raise
+        except (TypeError, AttributeError, z3.Z3Exception) as e:
+            # an operator the encoding has no meaning for (e.g. arithmetic on a datatype value): outside the subset, not a crash
+            raise OutsideSubset('binary operator %s on %s and %s (%s)' % (type(op).__name__, self.sort_of(a) or type(a).__name__,
+                                                                        self.sort_of(b) or type(b).__name__, str(e)[:60]))
+
+    def _binop(self, op, a, b):
         U = self.U
         h = getattr(U, 'binop_hook', None)
         if h is not None:
